@@ -263,6 +263,34 @@ fn spawn_watchdog(id: &'static str, verif_dir: PathBuf) {
 fn check_guarded(p: &dyn Property, case: &Case, st: &mut Stats) -> Result<(), String> {
     // a panic of the *harness* (not of the library inside a guarded call) must not masquerade as a
     // verdict: it propagates and aborts the run (exit 101 -> treated as "cannot decide")
+    #[cfg(not(feature = "builtin"))]
+    let remapped;
+    #[cfg(not(feature = "builtin"))]
+    let case = {
+        // minimal configuration: the built-in key types do not exist.  Histories of a built-in family are run
+        // under a custom family instead (same secrets, same calls); byte / text / key-import cases, which are
+        // about the built-in decoders, are out of this configuration's domain.
+        match case {
+            Case::Hist(h) if h.fam.key_type().is_some() => {
+                let mut h2 = h.clone();
+                h2.fam = match h.fam {
+                    crate::keys::FamId::K256 => crate::keys::FamId::Tiny,
+                    crate::keys::FamId::Libsecp => crate::keys::FamId::Mid,
+                    crate::keys::FamId::Ed => crate::keys::FamId::Nano,
+                    crate::keys::FamId::CombinedSecp => crate::keys::FamId::Big,
+                    _ => crate::keys::FamId::Tiny,
+                };
+                h2.alt_keys.clear();
+                remapped = Case::Hist(h2);
+                &remapped
+            }
+            Case::Hist(_) | Case::NodeId(_) => case,
+            _ => {
+                st.unspecified();
+                return Ok(());
+            }
+        }
+    };
     watch_begin(case);
     let r = p.check(case, st);
     watch_end();
@@ -304,6 +332,7 @@ pub fn run_property(p: &dyn Property, quick: bool, ctx: &RunCtx) -> i32 {
                     match r {
                         Err(_) if std::env::var("VERIF_AUX").is_ok() => {}
                         Err(m) => println!("KNOWN-FINDING: property={} {} [{}] ({})", id, f.description, f.signature, first_line(&m)),
+                        Ok(()) if std::env::var("VERIF_AUX").is_ok() => {}
                         Ok(()) => println!("note: known finding {} no longer reproduces on this tree", f.signature),
                     }
                 }
@@ -505,7 +534,9 @@ pub fn run_property(p: &dyn Property, quick: bool, ctx: &RunCtx) -> i32 {
         let rdir = ctx.verif_dir.join("replays");
         let _ = std::fs::create_dir_all(&rdir);
         std::fs::write(rdir.join(format!("aux-{id}-{}.json", crate::keys::BUILD_TAG)), serde_json::to_string_pretty(&summary).unwrap()).expect("write aux summary");
-        if let Err(m) = p.health(&total, quick) {
+        if !cfg!(feature = "builtin") {
+            // (the generator-health tables are written for the built-in families)
+        } else if let Err(m) = p.health(&total, quick) {
             println!("INCONCLUSIVE property={id} configuration=\"{}\" generator health: {m}", crate::keys::BUILD_CONFIG);
             return 2;
         }
